@@ -123,7 +123,8 @@ func newStdSvc(v stdVariant) (*stdSvc, error) {
 	if v.Pool > 0 {
 		var bs []string
 		for i := 0; i < v.Pool; i++ {
-			bs = append(bs, fmt.Sprintf("udp://%s:5080", ip(70+i)))
+			// (neither in numeric nor in lexicographic order of their addresses)
+			bs = append(bs, fmt.Sprintf("udp://%s:5080", ip([]int{73, 100, 70, 9, 75, 101, 72, 71}[i])))
 		}
 		if v.PoolTCP {
 			bs = append(bs, "tcp://"+ip(33)+":5080")
